@@ -352,12 +352,17 @@ static void end_hquery(struct host_query *hquery, ares_status_t status)
   struct ares_addrinfo_node  sentinel;
   struct ares_addrinfo_node *next;
 
-  if (status == ARES_SUCCESS) {
-    if (!(hquery->hints.ai_flags & ARES_AI_NOSORT) && hquery->ai->nodes) {
-      sentinel.ai_next = hquery->ai->nodes;
-      ares_sortaddrinfo(hquery->channel, &sentinel);
-      hquery->ai->nodes = sentinel.ai_next;
+  if (status == ARES_SUCCESS &&
+      !(hquery->hints.ai_flags & ARES_AI_NOSORT) && hquery->ai->nodes) {
+    sentinel.ai_next = hquery->ai->nodes;
+    /* Out of memory must not deliver the addresses unsorted as a success */
+    if (ares_sortaddrinfo(hquery->channel, &sentinel) == ARES_ENOMEM) {
+      status = ARES_ENOMEM; /* LCOV_EXCL_LINE: OutOfMemory */
     }
+    hquery->ai->nodes = sentinel.ai_next;
+  }
+
+  if (status == ARES_SUCCESS) {
     next = hquery->ai->nodes;
 
     while (next) {
